@@ -306,6 +306,9 @@ func c13Histories(run *mon.Run, r *rand.Rand, a hashAlg, n int) {
 				trace = append(trace, fmt.Sprintf("Write(%d)", len(msg)))
 				_, _ = h.Write(msg)
 				stream = append(stream, msg...)
+				for i := range msg {
+					msg[i] = 0xEE // the caller reuses the buffer it has just written from
+				}
 			default:
 				if !clean {
 					trace = append(trace, "Reset")
@@ -603,6 +606,9 @@ func c13KMAC(run *mon.Run) {
 					trace = append(trace, fmt.Sprintf("Write(%d)", len(msg)))
 					_, _ = h.Write(msg)
 					stream = append(stream, msg...)
+					for i := range msg {
+						msg[i] = 0xEE // the caller reuses the buffer it has just written from
+					}
 				default:
 					if !clean {
 						h.Reset()
